@@ -5,6 +5,7 @@ import (
 	"fmt"
 	"net/http"
 	"net/url"
+	"runtime"
 	"pgregory.net/rapid"
 )
 
@@ -13,7 +14,39 @@ type ctxKey struct{}
 type instr struct {
 	status  int
 	panic   bool
+	style   int // how an aborting handler leaves, see leaveStyles
 	rewrite int // what the handler does to the source-identifying header before it returns
+}
+
+// The ways a handler leaves without returning: a panic with a string, net/http's own sentinel (what a reverse proxy
+// raises when its backend breaks off mid-body), a value that is not an error, an error value, and runtime.Goexit
+// (what t.FailNow and some frameworks do: deferred calls run, nothing propagates).
+var leaveStyles = []string{"panic-string", "panic-ErrAbortHandler", "panic-non-error", "panic-error", "goexit"}
+
+func drawLeave(rt *rapid.T, ins *instr) {
+	if ins.panic {
+		ins.style = rapid.IntRange(0, len(leaveStyles)-1).Draw(rt, "abort-style")
+	}
+}
+
+func (ins instr) goexit() bool { return ins.panic && ins.style == 4 }
+
+// leave ends the handler the way the instruction says; returns only when the handler is to go on normally.
+func (ins instr) leave() {
+	if !ins.panic {
+		return
+	}
+	switch ins.style {
+	case 1:
+		panic(http.ErrAbortHandler)
+	case 2:
+		panic(42)
+	case 3:
+		panic(fmt.Errorf("handler abort (error value)"))
+	case 4:
+		runtime.Goexit()
+	}
+	panic("handler abort")
 }
 
 func newRequest(tag any, src string) *http.Request {
